@@ -232,3 +232,20 @@ pub fn aux_fresh_shape<H: HashChain>(
         }
     }
 }
+
+/// `LmotsAlgorithm::from(t).construct_parameter()` (the path a private key's parameter nibble takes).
+pub fn lmots_row_from_u32<H: HashChain>(t: u32) -> Option<(u32, u8, u16, u8)> {
+    let p = LmotsAlgorithm::from(t).construct_parameter::<H>()?;
+    Some((
+        p.get_type_id(),
+        p.get_winternitz(),
+        p.get_num_winternitz_chains(),
+        p.get_checksum_left_shift(),
+    ))
+}
+
+/// `LmsAlgorithm::from(t).construct_parameter()`.
+pub fn lms_row_from_u32<H: HashChain>(t: u32) -> Option<(u32, u8)> {
+    let p = LmsAlgorithm::from(t).construct_parameter::<H>()?;
+    Some((p.get_type_id(), p.get_tree_height()))
+}
